@@ -10,8 +10,8 @@ import (
 	"strings"
 	"time"
 
-	simcommon "github.com/tsenart/vegeta/v12/internal/zzsim/common"
 	"github.com/tsenart/vegeta/v12/internal/simrt"
+	simcommon "github.com/tsenart/vegeta/v12/internal/zzsim/common"
 	vegeta "github.com/tsenart/vegeta/v12/lib"
 )
 
